@@ -241,12 +241,18 @@ class RepositoryMachine(Machine):
                     key = self._pick_key(rng, g, fam, species, written)
                     entries.append({"key": key, "payload": g.payload(fam)})
                     written.append((fam, key))
-                ops.append({"op": "update", "fam": fam, "root": root, "entries": entries})
+                op = {"op": "update", "fam": fam, "root": root, "entries": entries}
+                if rng.random() < 0.35:
+                    # also re-send, unchanged, up to two payloads already stored in this family (an idempotent re-write
+                    # mixed with new data: "last write wins" must not depend on whether the written value is new)
+                    op["resend"] = rng.randint(1, 2)
+                    op["resend_pos"] = rng.choice(["first", "last", "last"])
+                ops.append(op)
             elif u < 0.62:
                 key = self._pick_key(rng, g, fam, species, written)
                 ops.append({"op": "read", "fam": fam, "root": root, "key": key})
             elif u < 0.74:
-                how = rng.choice(["axis2d", "shape", "charge", "species", "pecclass", "metastable"])
+                how = rng.choice(["axis2d", "shape", "charge", "species", "pecclass", "metastable", "refscalar", "refscalar"])
                 entries = []
                 for _ in range(rng.randint(1, 3)):
                     key = self._pick_key(rng, g, fam, species, written)
@@ -501,7 +507,7 @@ class RepositoryMachine(Machine):
             how, val = self._read(c, fam, key, root)
             if ck in unconstrained:
                 if how == "ok":
-                    c.model[ck] = {"fam": fam, "root": root, "key": key, "value": val}
+                    c.model[ck] = {"fam": fam, "root": root, "key": key, "value": val, "payload": None}
                 else:
                     c.model.pop(ck, None)
                 continue
@@ -514,7 +520,9 @@ class RepositoryMachine(Machine):
                 elif how == "ok":
                     if not any(a is not None and a == val for a in allowed):
                         raise Violation("key-corrupted", fam, "after %s: key %r holds neither its previous nor the offered value" % (after, ck))
-                    c.model[ck] = {"fam": fam, "root": root, "key": key, "value": val}
+                    keep = c.model.get(ck)
+                    c.model[ck] = {"fam": fam, "root": root, "key": key, "value": val,
+                                   "payload": keep["payload"] if keep and keep["value"] == val else None}
                 else:
                     raise Violation("key-lost", fam, "after %s: reading key %r raised %s: %s" % (after, ck, type(val).__name__, val))
                 continue
@@ -602,13 +610,23 @@ class RepositoryMachine(Machine):
 
     def _do_write(self, c, op, env, w0, d0, f0):
         fam, root = op["fam"], op["root"]
-        entries = [{"key": op["key"], "payload": op["payload"]}] if op["op"] == "add" else op["entries"]
+        entries = [{"key": op["key"], "payload": op["payload"]}] if op["op"] == "add" else list(op["entries"])
+        if op.get("resend"):
+            named = {ckey(fam, root, e["key"]) for e in entries}
+            stored = [m for ck, m in sorted(c.model.items(), key=lambda kv: repr(kv[0]))
+                      if m["fam"] == fam and m["root"] == root and m.get("payload") is not None and ck not in named]
+            extra = [{"key": m["key"], "payload": m["payload"]} for m in stored[: op["resend"]]]
+            if extra:
+                env.probe("stored_payload_resent_unchanged")
+                entries = (extra + entries) if op.get("resend_pos") == "first" else (entries + extra)
         # last entry wins when an update names the same canonical key twice
         offered = {}
+        payloads = {}
         for e in (self._application_order(fam, entries) if op["op"] == "update" else entries):
             ck = ckey(fam, root, e["key"])
             offered.pop(ck, None)
             offered[ck] = (e["key"], expected(fam, e["payload"]))
+            payloads[ck] = e["payload"]
         files_before = {self._abs(c, root, file_of(fam, key)) for key, _ in offered.values()}
         touching_poisoned = bool(files_before & c.poisoned)
         # probes for reach
@@ -638,7 +656,7 @@ class RepositoryMachine(Machine):
             c.pending_info[ck] = {"fam": fam, "root": root, "key": key}
         if raised is None:
             for ck, (key, val) in offered.items():
-                c.model[ck] = {"fam": fam, "root": root, "key": key, "value": val}
+                c.model[ck] = {"fam": fam, "root": root, "key": key, "value": val, "payload": payloads[ck]}
             self._audit(c, env, "%s %s" % (op["op"], fam))
             env.stats.add("families_written", fam)
             c.nwrites += 1
@@ -687,6 +705,14 @@ class RepositoryMachine(Machine):
             else:
                 t = bad["payload"][tab]
                 bad["payload"][tab] = list(t) + [t[0]]
+        elif how == "refscalar":
+            # valid arrays, invalid scalar: detected by the library only when it converts the scalar
+            fld = {"wavelength": "wavelength", "beam_cx": "qref", "beam_stopping": "sref", "beam_population": "sref",
+                   "beam_emission": "sref"}.get(fam)
+            if fld is None:
+                applicable = False
+            else:
+                bad["payload"][fld] = "n/a"
         elif how == "charge":
             bad["key"]["ch"] = ZNUM[bad["key"]["sp"]] + 1
         elif how == "species":
@@ -705,9 +731,10 @@ class RepositoryMachine(Machine):
         if op.get("via") == "add" and how not in ("species", "pecclass"):
             entries = [bad]
         offered = {}
-        for e in entries:
+        for e in (self._application_order(fam, entries) if not (op.get("via") == "add" and how not in ("species", "pecclass")) else entries):
             try:
                 ck = ckey(fam, root, e["key"])
+                offered.pop(ck, None)
                 offered[ck] = (e["key"], expected(fam, e["payload"]) if e is not bad else None)
             except Exception:
                 pass
